@@ -525,6 +525,79 @@ func c10Crafted(e *c10Env, cw *c10World) {
 			e.corr("C10.corr.x5chain", "c10.x5chain "+ch.model, answered(out), "TO0.OwnerSign voucher "+where+" X5CHAIN "+ch.what, safeNorm)
 		}
 	}
+	// COSE_Key public keys in shapes a decoder may or may not support: the y coordinate given as a sign bit (point
+	// compression) with x values that are and are not on the curve, coordinates of the wrong size, a missing coordinate.
+	// No model line: whatever the library decides, it must decide without panicking (the case helpers record panics,
+	// hangs and allocation).
+	coseKey := func(typ protocol.KeyType, crv int64, x any, y any) protocol.PublicKey {
+		m := map[int64]any{1: int64(2), -1: crv}
+		if x != nil {
+			m[-2] = x
+		}
+		if y != nil {
+			m[-3] = y
+		}
+		b, _ := cbor.Marshal(m)
+		return protocol.PublicKey{Type: typ, Encoding: protocol.CoseKeyEnc, Body: b}
+	}
+	rx := make([]byte, 32)
+	for i := range rx {
+		rx[i] = byte(37*i + 11)
+	}
+	for _, sh := range []struct {
+		what string
+		x, y any
+	}{
+		{"y=true,x=01", []byte{1}, true}, {"y=false,x=01", []byte{1}, false}, {"y=true,x=zero32", make([]byte, 32), true},
+		{"y=true,x=pattern32", rx, true}, {"y=false,x=pattern32", rx, false}, {"y=true,x=ff32", bytes.Repeat([]byte{0xff}, 32), true},
+		{"y=true,x=empty", []byte{}, true}, {"y=missing", rx, nil}, {"x=missing", nil, rx}, {"y=31-bytes", rx, rx[:31]}, {"y=int", rx, int64(1)},
+		{"x=33-bytes", append([]byte{2}, rx...), true},
+	} {
+		sh := sh
+		for _, crv := range []int64{1, 2} {
+			crv := crv
+			for _, where := range []string{"manufacturer-key", "entry-key", "last-entry-key"} {
+				where := where
+				srv("TO0", 22, 1, false, "cose-key-shape", fmt.Sprintf("voucher %s=COSE_Key{crv=%d,%s} (to0d hash and to1d signature recomputed)", where, crv, sh.what), func(valid []byte) []byte {
+					var os fdo.VerifOwnerSign
+					if err := cbor.Unmarshal(valid, &os); err != nil || os.To1d.Payload == nil {
+						fatal("decode 22: %v", err)
+					}
+					ov := &os.To0d.Val.Voucher
+					switch where {
+					case "manufacturer-key":
+						ov.Header.Val.ManufacturerKey = coseKey(ov.Header.Val.ManufacturerKey.Type, crv, sh.x, sh.y)
+					case "entry-key":
+						ov.Entries[0].Payload.Val.PublicKey = coseKey(ov.Entries[0].Payload.Val.PublicKey.Type, crv, sh.x, sh.y)
+					default:
+						n := len(ov.Entries) - 1
+						ov.Entries[n].Payload.Val.PublicKey = coseKey(ov.Entries[n].Payload.Val.PublicKey.Type, crv, sh.x, sh.y)
+					}
+					fixHashAndSign(&os, cw.k, "own1")
+					b, _ := cbor.Marshal(os)
+					return b
+				})
+			}
+			cli("DI", 10, 1, false, "11", fmt.Sprintf("ManufacturerKey=COSE_Key{crv=%d,%s}", crv, sh.what), func(valid []byte) []byte {
+				var m fdo.VerifSetCredentials
+				if err := cbor.Unmarshal(valid, &m); err != nil {
+					fatal("decode 11: %v", err)
+				}
+				m.OVHeader.Val.ManufacturerKey = coseKey(m.OVHeader.Val.ManufacturerKey.Type, crv, sh.x, sh.y)
+				b, _ := cbor.Marshal(m)
+				return b
+			})
+			cli("TO2", 64, 1, true, "65", fmt.Sprintf("Owner2Key=COSE_Key{crv=%d,%s}", crv, sh.what), func(valid []byte) []byte {
+				var m cose.Sign1Tag[fdo.VerifDeviceSetup, []byte]
+				if err := cbor.Unmarshal(valid, &m); err != nil || m.Payload == nil {
+					fatal("decode 65: %v", err)
+				}
+				m.Payload.Val.Owner2Key = coseKey(m.Payload.Val.Owner2Key.Type, crv, sh.x, sh.y)
+				b, _ := cbor.Marshal(m)
+				return b
+			})
+		}
+	}
 	// TO0.OwnerSign, consistently hashed and signed, with parts of the voucher null / empty
 	for _, v := range []struct {
 		what string
